@@ -4,7 +4,16 @@ MACH_TB = ['model: coq/theories/Machine/{State,Wrappers}.v (mini-ISA transcribed
  'software CPU (harness/src/softcpu.rs): SIGSEGV/SIGILL trap-and-emulate of the privileged instructions, emulated register file; hooks H2 (IF overlay) and H4 (XCR0 overlay)',
  'translator tools/asm_extract.py (asm! templates, operand bindings, options -> coq/theories/Gen/AsmTable_gen.v, regenerated every run)']
 ASMGEN = [dict(tool='asm_extract.py', args=[])]
+TBL_TB = ['model: coq/theories/Tables/{Gdt,Idt}.v (src/structures/gdt.rs, idt.rs, tss.rs, structures/mod.rs)',
+ 'coq/theories/Arch/Manual.v: hand transcription of the SDM/APM gate and descriptor formats (the oracle for "architectural encoding")',
+ 'struct layout chosen by rustc (repr(C), packed, align) is observed on the compiled artefact, not proved']
 PROPS = {
+ 'C12': dict(engine='tbl', profiles=['debug', 'release'], trusted_base=TBL_TB, exhaustive=True,
+   rule='all 256 vectors through index read and write paths and all named fields (exhaustive); all 65536 (start,end) pairs, each with two (thorough: all 15) RangeBounds forms through slice/slice_mut/Index/IndexMut/&u8 variants; random programs of 1-10 entry setters decoded by an independent gate decoder; new/reset/load; non-trivial = a setter after set_handler_addr, an exception vector, or a range touching 32/256'),
+ 'C14': dict(engine='tbl', profiles=['debug'], trusted_base=TBL_TB,
+   rule='MAX in {0,1,2,3,8,9,8192,8193}; random append sequences of user/system descriptors (all DPLs, random words) running past the capacity; from_raw_entries slices of length 0..MAX+1; load through the software CPU; non-trivial = an append was refused or the table holds more than two slots'),
+ 'C15': dict(engine='tbl', profiles=['debug'], trusted_base=TBL_TB,
+   rule='tss_segment_unchecked on every single-bit, inverted single-bit, low-ones and byte pattern plus boundary/random pointers; dpl() on random descriptor words; the six presets; offsets/sizes of TaskStateSegment and DescriptorTablePointer; non-trivial = pointer with bits above 24 set / non-zero DPL'),
  'C11': dict(engine='mach', profiles=['debug'], gen=ASMGEN, trusted_base=MACH_TB,
    rule='flush on canonical addresses; flush_all on every low-12-bit pattern of CR3 x random frames; flush_pcid on all 4096 PCIDs x 4 kinds; the INVLPGB builder on ranges (4KiB/2MiB; empty, short, >65535 pages, reaching/spanning the gap, ending at the top) x count_max in {0,1,2,3,7,255,256,65534,65535,random} x 32 option sets; non-trivial = more than one request or the range touches the gap/top, or CR3 low bits outside the two flag bits'),
  'C16': dict(engine='mach', profiles=['debug', 'release'], gen=ASMGEN, trusted_base=MACH_TB,
